@@ -151,7 +151,13 @@ def _finite(lo=-3.0, hi=3.0):
 
 
 @st.composite
-def theta_params(draw, kind, n_samples, n_treatments, D=None, values=None, full_table=None, table_pairs=None):
+def effect_table(draw, pairs):
+    """single-effect table of the interaction sample type: a *shared* parameter, one per holder."""
+    return [[int(c), int(t), 1.0 if t == -1 else draw(st.floats(min_value=0.02, max_value=1.0))] for c, t in pairs]
+
+
+@st.composite
+def theta_params(draw, kind, n_samples, n_treatments, D=None, values=None, table=None, table_pairs=None):
     """JSON description of one posterior sample of a shipped type, sized for (n_samples, n_treatments)."""
     D = draw(st.integers(1, 3)) if D is None else D
     v = _finite() if values is None else values
@@ -174,8 +180,11 @@ def theta_params(draw, kind, n_samples, n_treatments, D=None, values=None, full_
             "alpha": draw(v),
             "precision": prec,
         }
-    table = []
-    if table_pairs is not None:
+    if table is not None:
+        table = [list(x) for x in table]
+    else:
+        table = []
+    if table_pairs is not None and not table:
         for c, t in table_pairs:
             table.append([int(c), int(t), 1.0 if t == -1 else draw(st.floats(min_value=0.02, max_value=1.0))])
     return {"kind": kind, "W": mat(n_samples, D), "V2": mat(n_treatments, D), "precision": prec, "table": table}
@@ -211,3 +220,79 @@ def build_holder(params_list):
     for p in params_list:
         h.add_theta(build_theta(p))
     return h
+
+
+# ---------------------------------------------------------------- "simple" arity-2 screens with predictable ids
+
+
+def treat_name(k):
+    return "t%d" % (k // 2), [1.0, 2.0][k % 2]
+
+
+@st.composite
+def simple_screen(
+    draw,
+    n_samples=(1, 4),
+    n_treat=(1, 5),
+    n_rows=(1, 10),
+    n_plates=(1, 4),
+    arity=2,
+    obs=unit_obs,
+    allow_control=True,
+    allow_same=True,
+    ensure_unobserved=0,
+    ensure_observed=0,
+    single_sample_plates=False,
+):
+    """Arity-1/2 screen over samples s0.. and conditions (t<k//2>, dose 1|2) plus control ('ctl', 0).  With fewer
+    than 20 conditions the batchie ids coincide with the indices used here (ids are read back from the built
+    Screen wherever they matter).  Returns a screen_case-compatible dict with extra keys ns / nt."""
+    ns = draw(st.integers(*n_samples))
+    nt = draw(st.integers(*n_treat))
+    npl = draw(st.integers(*n_plates))
+    n = draw(st.integers(*n_rows))
+    rows = []
+    for _ in range(n):
+        s = draw(st.integers(0, ns - 1))
+        ts = []
+        for j in range(arity):
+            lo = -1 if allow_control else 0
+            t = draw(st.integers(lo, nt - 1))
+            if not allow_same and j == 1 and t == ts[0] and t != -1:
+                t = (t + 1) % nt if nt > 1 else -1
+            ts.append(t)
+        if single_sample_plates:
+            p = "p%d_%d" % (s, draw(st.integers(0, npl - 1)))
+        else:
+            p = "p%d" % draw(st.integers(0, npl - 1))
+        rows.append(
+            {
+                "s": "s%d" % s,
+                "p": p,
+                "t": ["ctl" if t == -1 else treat_name(t)[0] for t in ts],
+                "d": [0.0 if t == -1 else treat_name(t)[1] for t in ts],
+                "o": draw(obs),
+            }
+        )
+    plates = sorted({r["p"] for r in rows})
+    observed = [p for p in plates if draw(st.booleans())]
+    unobs = [p for p in plates if p not in observed]
+    while len(unobs) < min(ensure_unobserved, len(plates)) and observed:
+        unobs.append(observed.pop())
+    while len(observed) < min(ensure_observed, len(plates) - ensure_unobserved) and len(unobs) > ensure_unobserved:
+        observed.append(unobs.pop())
+    return {"arity": arity, "control": "ctl", "rows": rows, "observed": sorted(observed), "ns": ns, "nt": nt}
+
+
+def space_mappings(ns, nt):
+    """The mappings batchie produces for the full space s0..s<ns-1>, conditions 0..nt-1 plus control."""
+    names = ["ctl"] + [treat_name(k)[0] for k in range(nt)]
+    ds = [0.0] + [treat_name(k)[1] for k in range(nt)]
+    ids = [-1] + list(range(nt))
+    tm = (np.array(names, dtype=object), np.array(ds, dtype=float), np.array(ids, dtype=int))
+    sm = (np.array(["s%d" % i for i in range(ns)], dtype=object), np.arange(ns, dtype=int))
+    return tm, sm
+
+
+def full_table_pairs(ns, nt):
+    return [(c, t) for c in range(ns) for t in [-1] + list(range(nt))]
